@@ -34,7 +34,13 @@ EXPLANATION = ("Lean theorems about the executable models of ErrorMessage::toXML
                "(anonymous namespace; its duplicate filter is modelled and exercised through the CLI), readCode's file access "
                "(the source line is a parameter), plist output, colours on a terminal, the JSON parser side of SARIF consumers.")
 MODULES = ["Cppcheck.Props.C26"]
-THEOREMS = []   # filled below (kept next to the Lean file)
+THEOREMS = ["Cppcheck.C26." + t for t in (
+    "gen_entities_eq", "predefined_templates_wf",
+    "toXML_roundtrip_partial", "toXML_wf_partial", "rawOK_ignores_messages", "toXML_wf_counterexample", "toXML_roundtrip_counterexample",
+    "rng_els", "rng_error_names", "rng_loc_names", "rng_sev", "toXML_conforms_rng_partial",
+    "sarif_results", "sarif_rules", "sarif_drops_unlocated", "sarif_string_roundtrip",
+    "render_eq_spec_partial", "render_injection_counterexample",
+    "each_once", "stdLogger_all_partial", "xml_dedup_by_text_counterexample")]
 
 GEN_ENT = "TinyXmlEntities"
 GEN_TPL = "Templates"
@@ -338,6 +344,65 @@ def canon_xerr(x):
     return at(attrs) + "|" + (";".join(at(l) for l in locs) if locs else "-") + "|" + (",".join(core.hx(s) for s in syms) if syms else "-")
 
 
+RNG = {}
+NCNAME = re.compile(r"^[A-Za-z_][A-Za-z0-9_.\-]*$")
+
+
+def rng_problems(got):
+    """violations of the extracted cppcheck-errors.rng grammar by one re-read <error> (attrs, locs, syms)"""
+    if not RNG:
+        return []
+    attrs, locs, syms = got
+    probs = []
+
+    def chk(el, a):
+        req, opt, _ch, facets = RNG[el]
+        names = [k for k, _ in a]
+        for r in req:
+            if r not in names:
+                probs.append("%s: required attribute %s missing" % (el, r))
+        for k, v in a:
+            if k not in req and k not in opt:
+                probs.append("%s: attribute %s not in the schema" % (el, k))
+                continue
+            fc = facets.get(k, {})
+            if fc.get("values") and v.decode("utf-8", "replace") not in fc["values"]:
+                probs.append("%s: %s=%r not among %s" % (el, k, v, fc["values"]))
+            for dt in fc.get("data", []):
+                t = v.decode("utf-8", "replace")
+                if dt == "NCName" and not NCNAME.match(t):
+                    probs.append("%s: %s is not an NCName" % (el, k))
+                if dt == "integer":
+                    if not re.match(r"^[+-]?[0-9]+$", t):
+                        probs.append("%s: %s is not an integer" % (el, k))
+                    else:
+                        for pn, pv in fc.get("params", []):
+                            if pn == "minExclusive" and not int(t) > int(pv):
+                                probs.append("%s: %s=%s violates minExclusive %s" % (el, k, t, pv))
+                            if pn == "minInclusive" and not int(t) >= int(pv):
+                                probs.append("%s: %s=%s violates minInclusive %s" % (el, k, t, pv))
+                if dt == "boolean" and t not in ("true", "false", "0", "1"):
+                    probs.append("%s: %s is not a boolean" % (el, k))
+    chk("error", attrs)
+    for l in locs:
+        chk("location", l)
+    if locs and "location" not in RNG["error"][2]:
+        probs.append("error: child location not in the schema")
+    if syms and "symbol" not in RNG["error"][2]:
+        probs.append("error: child symbol not in the schema")
+    return probs
+
+
+def classify_rng(probs):
+    """known class F26d: the shipped schema lags behind toXML (attributes / severities added later, hash facet)"""
+    lag = re.compile(r"attribute (origfile|remark|guideline|classification) not in the schema|severity=b'(debug|internal|)' not among|hash=1 violates")
+    if all(lag.search(p) for p in probs):
+        return "xml-rng-schema-lag"
+    if all(lag.search(p) or "id is not an NCName" in p for p in probs):
+        return "premise:id-not-ncname"
+    return None
+
+
 def is_utf8_xml(b):
     try:
         s = b.decode("utf-8")
@@ -397,8 +462,25 @@ def spec_subst(t, val):
     return TOK.sub(rep, t)
 
 
-def spec_render(f, verbose, tf, tl):
+def read_code_line(path, line):
+    """the source line as readCode shows it (trailing blanks cut, tabs as blanks); empty when unreadable or line <= 0"""
+    try:
+        data = open(path, "rb").read().split(b"\n")
+    except OSError:
+        return b""
+    if line <= 0 or not data:
+        return b""
+    if data and data[-1] == b"":
+        data.pop()
+    ln = data[min(line, len(data)) - 1] if data else b""
+    ln = ln.rstrip(b"\r\n\t ") if ln.strip(b"\r\n\t ") else ln
+    return ln.replace(b"\t", b" ")
+
+
+def spec_render(f, verbose, tf, tl, srcdir=None):
     """documented meaning: one simultaneous substitution of the fields (python twin of Template.Spec.render)"""
+    def src(loc):
+        return read_code_line(os.path.join(srcdir.encode() if isinstance(srcdir, str) else srcdir, loc[1]), loc[2]) if srcdir else b""
     last = f["locs"][-1] if f["locs"] else None
     env = {
         b"id": f["guideline"] or f["id"],
@@ -421,13 +503,13 @@ def spec_render(f, verbose, tf, tl):
             return env.get(n)
         return v
     pre = spec_subst(tf, val(None))
-    code = (endl_of(pre) + b" " * max(last[3] - 1, 0) + b"^") if last else b""
+    code = (src(last) + endl_of(pre) + b" " * max(last[3] - 1, 0) + b"^") if last else b""
     out = spec_subst(tf, val(code))
     if tl and len(f["locs"]) >= 2:
         for (file, orig, line, col, info) in f["locs"]:
             lenv = {b"file": native(file), b"line": b"%d" % line, b"column": b"%d" % col, b"info": info or f["short"]}
             pre = spec_subst(tl, lambda n: None if n == b"code" else lenv.get(n))
-            code = endl_of(pre) + b" " * max(col - 1, 0) + b"^"
+            code = src((file, orig, line, col, info)) + endl_of(pre) + b" " * max(col - 1, 0) + b"^"
             out += b"\n" + spec_subst(tl, lambda n: code if n == b"code" else lenv.get(n))
     return out
 
@@ -668,6 +750,18 @@ def check_xml_case(res, f, impl_doc, model_line, where):
     if ok != mrt:
         res.oblig("R:roundtrip-verdict-twin", False, "correspondence", "%s: model round trip=%s, expat-based=%s" % (where, mrt, ok))
     res.count("xml:wf" if ewf else "xml:not-wf")
+    if ok:
+        probs = rng_problems(got)
+        if probs:
+            key = classify_rng(probs)
+            if key and key.startswith("premise:"):
+                res.count("rng:outside-premise(id not an NCName)")
+            else:
+                res.count("rng:violation:" + str(key))
+                res.violation("XML output does not conform to cppcheck-errors.rng: %s" % "; ".join(probs[:4]),
+                              dict(kind="xml", finding=finding_json(f), output=impl_doc.hex(), problems=probs), concrete=True, key=key)
+        else:
+            res.count("rng:conforms")
     if not ok:
         key = classify_xml(f)
         what = ("XML output of a finding is %s: %s" % ("not well-formed" if not ewf else "well-formed but does not carry the finding's fields",
@@ -747,8 +841,16 @@ def corpus_cases():
 
 
 def run(ctx, res):
+    import time
     rng = ctx.rng
     thorough = ctx.tier == "thorough"
+    t0 = time.time()
+    phases = res.extra.setdefault("phase_seconds", {})
+
+    def mark(name):
+        nonlocal t0
+        phases[name] = round(time.time() - t0, 1)
+        t0 = time.time()
     # ---- translators (fail closed) -------------------------------------------------------------------------
     info = None
     try:
@@ -758,9 +860,25 @@ def run(ctx, res):
         res.oblig("T4:rng-grammar-extracted", True, "translation", "elements %s" % sorted(info["rng"]))
     except (Unrecognised, OSError, ET.ParseError) as ex:
         res.oblig("T:translators", False, "translation", "unrecognised shape: %s" % ex)
+    if info:
+        RNG.clear(); RNG.update(info["rng"])
+    mark("translate")
     core.prove(ctx, res, MODULES, THEOREMS)
+    mark("prove")
     drv = ctx.driver("drv_c26")
     exe = ctx.harness("c26")
+    mark("driver+harness")
+    try:
+        CRITICAL.update(extract_critical())
+    except Unrecognised:
+        pass
+
+    # ---- corpus first: witnesses of the known findings and past disagreements ------------------------------------
+    for c in corpus_cases():
+        if c.get("kind") == "cli":
+            continue        # replayed by the CLI tier
+        r = replay_case(ctx, res, drv, exe, c)
+        res.count("corpus:%s:%s" % (c.get("name", "?"), "still-fails" if r else "passes"))
 
     # ---- T3: tables compared exhaustively ---------------------------------------------------------------------
     try:
@@ -780,11 +898,11 @@ def run(ctx, res):
     impl, model = run_pair(ctx, exe, drv, ops)
     core.correspond(ctx, res, "T3:single-byte-tables(fixInvalidChars,toxml,PrintString)", ops, impl, model, nontrivial=lambda op, out: True)
 
+    mark("corpus+tables")
     # ---- findings ----------------------------------------------------------------------------------------------
     nf = 900 if thorough else 260
-    findings = [finding_unjson(c["finding"]) for c in corpus_cases() if c.get("kind") in ("xml", "text")]
-    ncorp = len(findings)
-    findings += [gen_finding(rng, res) for _ in range(nf)]
+    findings = [gen_finding(rng, res) for _ in range(nf)]
+    ncorp = 0
     rc, vout, err = core.run_lines(exe, [], ["version"])
     version = vout[0]
 
@@ -847,6 +965,7 @@ def run(ctx, res):
     res.oblig("R:xml-reader-model-sound-on-mutants", not bad, "correspondence", "" if not bad else "model accepts / reads differently from expat: %r" % (bad[0],))
     res.extra["reader_mutants"] = len(muts)
 
+    mark("xml")
     # ---- C2/C3: templates --------------------------------------------------------------------------------------
     tpls = []
     if info:
@@ -873,10 +992,6 @@ def run(ctx, res):
     core.correspond(ctx, res, "C2:substituteTemplateFormatStatic(CLICOLOR_FORCE)", opsc, implc, modelc, nontrivial=lambda op, out: True)
 
     cases = []          # (finding index, verbose, tf, tl, origin)
-    tcorp = [c for c in corpus_cases() if c.get("kind") == "text"]
-    for j, c in enumerate(tcorp):
-        fi = [k for k, cc in enumerate([c2 for c2 in corpus_cases() if c2.get("kind") in ("xml", "text")]) if cc is c or cc == c][0]
-        cases.append((fi, c.get("verbose", 0), bytes.fromhex(c["template"]), bytes.fromhex(c.get("location", "")), "corpus"))
     final_tpls = []
     for tf, tl, origin in tpls:
         final_tpls.append((static_out[(tf, 1)], static_out[(tl, 1)], origin))
@@ -902,8 +1017,9 @@ def run(ctx, res):
             continue
         check_text_case(res, findings[i], vb, tf, tl, core.unhx(impl[k]), "case %d" % k)
 
+    mark("text")
     # ---- C4: SARIF ---------------------------------------------------------------------------------------------------
-    groups = [[finding_unjson(x) for x in c["findings"]] for c in corpus_cases() if c.get("kind") == "sarif"]
+    groups = []
     for _ in range(120 if thorough else 40):
         n = rng.choice([0, 1, 2, 3, 5])
         profile = rng.choice(["clean", "clean", "msg", "raw"])
@@ -923,39 +1039,269 @@ def run(ctx, res):
             continue
         check_sarif_case(res, groups[k], core.unhx(impl[k]), "group %d" % k)
 
+    mark("sarif")
     cli_tier(ctx, res, thorough)
+    mark("cli")
+
+
+def err_finding(fname, line, text):
+    """the finding cppcheck reports for `#error <text>` in column 1 of line `line` of file `fname`"""
+    msg = b"#error " + text
+    return dict(profile="cli", id=b"preprocessorErrorDirective", guideline=b"", classification=b"", sev=1, cwe=0, hash=0, inc=0, file0=b"",
+                short=msg, verbose=msg, symbols=b"", remark=b"", locs=[(fname, fname, line, 2, b"")])
+
+
+CLI_TEXT_POOL = [b"see {file} at {line}:{column}", b"<>&\"' tag", b"caf\xe9 latin1", b"utf8 \xc3\xa9\xe6\x97\xa5", b"ctl \x01\x02 x", b"{message} {id} {callstack}",
+                 b"plain text", b"back\\nslash \\t", b"{inconclusive:x} {", b"a  b\tc", b"]]> <!-- x -->", b"{code}{severity}"]
+CLI_TEMPLATES = [b"{file}:{line}:{column}: {severity}:{inconclusive:inconclusive:} {message} [{id}]", b"{file}:{line}:{message}", b"{file}:{line}: {message}\\n{code}", b"{id}", b"{message}",
+                 b"{callstack}: ({severity}) {message}", b"{file},{line},{severity},{id},{message}", b"{line}|{column}|{cwe}|{remark}|{message}|{file}"]
+
+
+def run_lines_cwd(exe, lines, cwd):
+    r = subprocess.run([exe], cwd=cwd, input=("\n".join(lines) + "\n").encode(), stdout=subprocess.PIPE, stderr=subprocess.PIPE, timeout=300)
+    out = r.stdout.decode().split("\n")
+    if out and out[-1] == "":
+        out.pop()
+    return out
+
+
+def cli_run(ctx, args, cwd):
+    r = subprocess.run([ctx.cppcheck] + args, cwd=cwd, stdout=subprocess.PIPE, stderr=subprocess.PIPE, timeout=300)
+    return r.returncode, r.stdout, r.stderr
+
+
+def cli_case(ctx, res, case):
+    """one CLI scenario: files with one `#error` each (or given verbatim), one output mode.
+    Ties the StdLogger model (duplicate filter keyed by the text rendering + the writers) to the real binary and evaluates
+    P_impl on what the binary printed.  Returns True when the property fails on this scenario."""
+    drv = ctx.driver("drv_c26")
+    exe = ctx.harness("c26")
+    d = os.path.join(ctx.tmp, "cli_%d" % ctx.rng.getrandbits(40))
+    os.makedirs(d)
+    names = []
+    fs = []
+    for (name_hex, line, text_hex) in case["files"]:
+        name, text = bytes.fromhex(name_hex), bytes.fromhex(text_hex)
+        os.makedirs(os.path.dirname(os.path.join(d.encode(), name)), exist_ok=True)
+        with open(os.path.join(d.encode(), name), "wb") as fh:
+            fh.write(b"\n" * (line - 1) + b"#error " + text + b"\n")
+        names.append(name)
+        fs.append(err_finding(name, line, text))
+    for (name_hex, content_hex) in case.get("extra", []):
+        with open(os.path.join(d.encode(), bytes.fromhex(name_hex)), "wb") as fh:
+            fh.write(bytes.fromhex(content_hex))
+    if "cmdline" in case:        # files named on the command line / findings expected, when they differ from `files`
+        names = [bytes.fromhex(x) for x in case["cmdline"]]
+        fs = [err_finding(bytes.fromhex(n), l, bytes.fromhex(t)) for (n, l, t) in case["findings"]]
+    mode = case["mode"]
+    tf_raw = bytes.fromhex(case.get("template", "")) or None
+    args = [b"-q"]
+    if tf_raw is not None:
+        args.append(b"--template=" + tf_raw)
+    if mode == "xml":
+        args.append(b"--xml")
+    elif mode == "sarif":
+        args.append(b"--output-format=sarif")
+    rc, out, err = cli_run(ctx, args + names, d)
+    # the templates the run uses (static part substituted by the real code, no colours: stderr is a pipe)
+    if tf_raw is None:
+        tf_raw = DEFAULT_TPL[0]
+        tl_raw = DEFAULT_TPL[1]
+    else:
+        tl_raw = b""
+    rcx, so, _ = core.run_lines(exe, [], ["static 0 0 " + core.hx(tf_raw), "static 0 0 " + core.hx(tl_raw), "hdr 2", "version"])
+    tf, tl = core.unhx(so[0]), core.unhx(so[1])
+    hdr, ftr = [core.unhx(x) for x in so[2].split(" ")]
+    version = so[3]
+    # model: which findings reach the writer
+    op = "std 0 %s %s %d%s" % (core.hx(tf), core.hx(tl), len(fs), "".join(" " + finding_wire(f) for f in fs))
+    rcm, mo, _ = core.run_lines(drv, [], [op])
+    kept_idx = [int(x) for x in mo[0].split("|")[0].split()]
+    kept = [fs[i] for i in kept_idx]
+    fails = False
+    where = "cli:%s:%s" % (case.get("name", "?"), mode)
+    if mode == "text":
+        ops = ["str 0 %s %s %s" % (core.hx(tf), core.hx(tl), finding_wire(f)) for f in kept]
+        io = run_lines_cwd(exe, ops, d) if ops else []      # in the scenario directory: {code} reads the same files
+        expect = b"".join(core.unhx(x) + b"\n" for x in io)
+        res.oblig("C5:%s" % where, err == expect, "correspondence", "" if err == expect else "binary printed %r, StdLogger model + toString give %r" % (err[:400], expect[:400]))
+        res.case(where + "|" + op, True, dict(tie="C5:cli", op=case.get("name"), impl=repr(err[:120]), model=repr(expect[:120])))
+        # P_impl: every finding of the run rendered exactly once, as the simultaneous substitution of the fields
+        if template_wf(tf):
+            for f in fs:
+                want = spec_render(f, 0, tf, tl, d) + b"\n"
+                n = (b"\n" + err).count(b"\n" + want) if want.strip() else 1
+                if n != 1:
+                    key = classify_text(f, 0, tf, tl)
+                    if key is None and len(set(spec_render(g, 0, tf, tl, d) for g in fs)) < len(fs):
+                        continue        # two findings with the same documented text: printed once by design
+                    fails = True
+                    res.violation("%s: the finding %r is rendered %d times as documented (output %r)" % (where, f["short"], n, err[:300]),
+                                  dict(case), concrete=True, key=key)
+    elif mode == "xml":
+        ops = ["xml " + finding_wire(f) for f in kept]
+        rci, io, _ = core.run_lines(exe, [], ops) if ops else (0, [], "")
+        expect = hdr + b"\n" + b"".join(core.unhx(x) + b"\n" for x in io) + ftr + b"\n"
+        res.oblig("C5:%s" % where, err == expect, "correspondence", "" if err == expect else "binary printed %r, model composition gives %r" % (err[:600], expect[:600]))
+        res.case(where + "|" + op, True, None)
+        # P_impl: the document parses, carries one <error> per distinct finding with the documented fields, validates against the rng
+        try:
+            root = ET.fromstring(err)
+            got = []
+            for e in root.iter("error"):
+                got.append(canon_xerr(([(k, v.encode("utf-8")) for k, v in e.attrib.items()],
+                                       [[(k, v.encode("utf-8")) for k, v in c.attrib.items()] for c in e if c.tag == "location"],
+                                       [(c.text or "").encode("utf-8") for c in e if c.tag == "symbol"])))
+            want = []
+            for f in fs:
+                c = canon_xerr(expected_xml(f))
+                if c not in want:
+                    want.append(c)
+            if sorted(got) != sorted(want):
+                dropped = len(set(canon_xerr(expected_xml(f)) for f in fs)) > len(kept)
+                key = "xml-raw-field-bytes" if any(classify_xml(f) for f in fs) else ("xml-dedup-by-text" if dropped else None)
+                fails = True
+                res.violation("%s: the XML report does not carry the findings of the run: got %s expected %s" % (where, got, want), dict(case), concrete=True, key=key)
+            else:
+                xp = os.path.join(d, "out.xml")
+                open(xp, "wb").write(err)
+                r = subprocess.run(["xmllint", "--noout", "--relaxng", os.path.join(core.REPO, "cppcheck-errors.rng"), xp], stdout=subprocess.PIPE, stderr=subprocess.PIPE, text=True)
+                res.count("cli:xmllint-rng:%s" % ("valid" if r.returncode == 0 else "invalid"))
+                if r.returncode != 0:
+                    fails = True
+                    res.violation("%s: the XML report does not validate against cppcheck-errors.rng: %s" % (where, r.stderr[:300]), dict(case), concrete=True, key=None)
+        except ET.ParseError as ex:
+            fails = True
+            key = "xml-raw-field-bytes" if any(classify_xml(f) for f in fs) else None
+            res.violation("%s: the XML report is not well-formed (%s): %r" % (where, ex, err[:300]), dict(case), concrete=True, key=key)
+    else:
+        op2 = "sarif %s %d%s" % (version, len(kept), "".join(" " + finding_wire(f) for f in kept))
+        rci, io, _ = core.run_lines(exe, [], [op2])
+        expect = core.unhx(io[0]) + b"\n"
+        res.oblig("C5:%s" % where, err == expect, "correspondence", "" if err == expect else "binary printed %r, model composition gives %r" % (err[:400], expect[:400]))
+        res.case(where + "|" + op, True, None)
+        distinct = []
+        for f in fs:
+            if f not in distinct:
+                distinct.append(f)
+        if len(kept) < len(distinct):
+            fails = True
+            res.violation("%s: %d distinct findings, %d reach the SARIF report (duplicate filter keyed by the text rendering %r)" % (where, len(distinct), len(kept), tf),
+                          dict(case), concrete=True, key="xml-dedup-by-text")
+        if not check_sarif_case(res, kept, err, where):
+            fails = True
+    res.count("cli:" + mode)
+    return fails
+
+
+DEFAULT_TPL = [b"", b""]
+
+
+def rp_scenario(ctx, res):
+    """F26d on the real binary: `-rp` makes toXML write origfile=, which the shipped schema rejects (xmllint)"""
+    d = os.path.join(ctx.tmp, "cli_rp")
+    os.makedirs(d, exist_ok=True)
+    open(os.path.join(d, "np.c"), "w").write("void f(void){ int *p = 0; *p = 1; }\n")
+    rc, out, err = cli_run(ctx, [b"-q", b"--xml", b"-rp=" + d.encode(), os.path.join(d, "np.c").encode()], d)
+    xp = os.path.join(d, "out.xml")
+    open(xp, "wb").write(err)
+    r = subprocess.run(["xmllint", "--noout", "--relaxng", os.path.join(core.REPO, "cppcheck-errors.rng"), xp], stdout=subprocess.PIPE, stderr=subprocess.PIPE, text=True)
+    res.case("cli:rp-origfile", True, dict(tie="P_impl:xmllint", op="cppcheck -q --xml -rp=<dir> <dir>/np.c", impl=r.stderr[:160], model="-"))
+    if b"origfile=" not in err:
+        res.oblig("cli:rp-scenario-produces-origfile", False, "machinery", "the -rp scenario no longer produces an origfile attribute: %r" % err[:300])
+        return
+    if r.returncode != 0:
+        msgs = [l for l in r.stderr.split("\n") if "validity error" in l]
+        key = "xml-rng-schema-lag" if msgs and all("Invalid attribute origfile" in m for m in msgs) else None
+        res.violation("cli:rp: the XML report does not validate against cppcheck-errors.rng: %s" % "; ".join(msgs[:2]),
+                      dict(kind="cli-rp", output=err.hex()), concrete=True, key=key)
+    res.count("cli:xmllint-rng:%s" % ("valid" if r.returncode == 0 else "invalid"))
 
 
 def cli_tier(ctx, res, thorough):
-    pass
+    rng = ctx.rng
+    if DEFAULT_TPL[0] == b"":
+        info = extract_templates()
+        DEFAULT_TPL[0] = info["default"][0].encode("latin-1")
+        DEFAULT_TPL[1] = (info["default"][1] or "").encode("latin-1")
+    h = lambda b: b.hex()
+    cases = [c for c in corpus_cases() if c.get("kind") == "cli"]
+    # duplicate filter: the same finding through two translation units; two findings one text
+    inc = [[h(b"a.c"), h(b'#include "h.h"\n')], [h(b"b.c"), h(b'#include "h.h"\n')]]
+    for mode in ("text", "xml"):
+        cases.append(dict(kind="cli", name="dup-same-finding", mode=mode, files=[[h(b"h.h"), 3, h(b"dup")]], extra=inc, cmdline=[h(b"a.c"), h(b"b.c")],
+                          findings=[[h(b"h.h"), 3, h(b"dup")], [h(b"h.h"), 3, h(b"dup")]], **(dict(template=h(b"{file}:{line}:{message}")) if mode == "text" else {})))
+    cases.append(dict(kind="cli", name="same-text-template-id", mode="text", template=h(b"{id}"), files=[[h(b"a.c"), 1, h(b"A")], [h(b"b.c"), 1, h(b"B")]]))
+    cases.append(dict(kind="cli", name="same-text-template-id", mode="sarif", template=h(b"{id}"), files=[[h(b"a.c"), 1, h(b"A")], [h(b"b.c"), 1, h(b"B")]]))
+    cases.append(dict(kind="cli", name="plain", mode="xml", files=[[h(b"a.c"), 2, h(b"plain <text> & more")], [h(b"dir name/b c.c"), 1, h(b"x")]]))
+    cases.append(dict(kind="cli", name="plain", mode="sarif", files=[[h(b"a.c"), 2, h(b"plain \"text\" \\ / \x01")]]))
+    n = 14 if thorough else 3
+    for _ in range(n):
+        k = rng.choice([1, 2, 2, 3])
+        files = []
+        for j in range(k):
+            name = rng.choice([b"a%d.c", b"sp ace%d.c", b"q'%d.c", b"amp&%d.c", b"u\xc3\xa9%d.c", b"{line}%d.c"]) % j
+            files.append([h(name), rng.choice([1, 2, 7]), h(rng.choice(CLI_TEXT_POOL))])
+        mode = rng.choice(["text", "text", "xml", "sarif"])
+        c = dict(kind="cli", name="generated", mode=mode, files=files)
+        if mode == "text" or rng.random() < 0.3:
+            c["template"] = h(rng.choice(CLI_TEMPLATES))
+        cases.append(c)
+    for c in cases:
+        cli_case(ctx, res, c)
+    rp_scenario(ctx, res)
+
+
+def replay_case(ctx, res, drv, exe, rp):
+    """re-run one stored case on the real code (P_impl + correspondence of that case); True = the property still fails on it"""
+    kind = rp.get("kind")
+    if kind == "xml":
+        f = finding_unjson(rp["finding"])
+        ops = ["xml " + finding_wire(f)]
+        impl, model = run_pair(ctx, exe, drv, ops)
+        core.correspond(ctx, res, "corpus:toXML:" + rp.get("name", ""), ops, impl, [model[0].split(" ")[0]])
+        nv = len(res.violations)
+        ok = check_xml_case(res, f, core.unhx(impl[0]), model[0], "corpus")
+        return (not ok) or len(res.violations) > nv
+    if kind == "text":
+        f = finding_unjson(rp["finding"])
+        tf, tl, vb = bytes.fromhex(rp["template"]), bytes.fromhex(rp.get("location", "")), rp.get("verbose", 0)
+        ops = ["str %d %s %s %s" % (vb, core.hx(tf), core.hx(tl), finding_wire(f))]
+        impl, model = run_pair(ctx, exe, drv, ops)
+        core.correspond(ctx, res, "corpus:toString:" + rp.get("name", ""), ops, impl, model)
+        return check_text_case(res, f, vb, tf, tl, core.unhx(impl[0]), "corpus") is False
+    if kind == "sarif":
+        fs = [finding_unjson(x) for x in rp["findings"]]
+        rc, vout, err = core.run_lines(exe, [], ["version"])
+        ops = ["sarif %s %d%s" % (vout[0], len(fs), "".join(" " + finding_wire(f) for f in fs))]
+        impl, model = run_pair(ctx, exe, drv, ops)
+        core.correspond(ctx, res, "corpus:sarif:" + rp.get("name", ""), ops, impl, model)
+        return not check_sarif_case(res, fs, core.unhx(impl[0]), "corpus")
+    raise core.CheckBroken("corpus/replay case of unknown kind %r" % kind)
 
 
 def replay(ctx, res, rp):
     """re-run one stored case on the real code; 1 = still fails"""
     drv = ctx.driver("drv_c26")
     exe = ctx.harness("c26")
+    try:
+        info = translate(ctx)
+        RNG.clear(); RNG.update(info["rng"])
+        CRITICAL.update(extract_critical())
+    except Unrecognised:
+        pass
     r2 = core.Result(ctx, LEVEL)
-    if rp.get("kind") == "xml":
-        f = finding_unjson(rp["finding"])
-        ops = ["xml " + finding_wire(f)]
-        impl, model = run_pair(ctx, exe, drv, ops)
-        ok = check_xml_case(r2, f, core.unhx(impl[0]), model[0], "replay")
-    elif rp.get("kind") == "text":
-        f = finding_unjson(rp["finding"])
-        tf, tl, vb = bytes.fromhex(rp["template"]), bytes.fromhex(rp.get("location", "")), rp.get("verbose", 0)
-        ops = ["str %d %s %s %s" % (vb, core.hx(tf), core.hx(tl), finding_wire(f))]
-        impl, model = run_pair(ctx, exe, drv, ops)
-        ok = check_text_case(r2, f, vb, tf, tl, core.unhx(impl[0]), "replay")
-    elif rp.get("kind") == "sarif":
-        fs = [finding_unjson(x) for x in rp["findings"]]
-        rc, vout, err = core.run_lines(exe, [], ["version"])
-        ops = ["sarif %s %d%s" % (vout[0], len(fs), "".join(" " + finding_wire(f) for f in fs))]
-        impl, model = run_pair(ctx, exe, drv, ops)
-        ok = check_sarif_case(r2, fs, core.unhx(impl[0]), "replay")
+    if rp.get("kind") == "cli":
+        if DEFAULT_TPL[0] == b"":
+            t = extract_templates()
+            DEFAULT_TPL[0], DEFAULT_TPL[1] = t["default"][0].encode("latin-1"), (t["default"][1] or "").encode("latin-1")
+        fails = cli_case(ctx, r2, rp)
+    elif rp.get("kind") == "cli-rp":
+        rp_scenario(ctx, r2)
+        fails = bool(r2.violations)
     else:
-        print("replay: unknown kind")
-        return 2
+        fails = replay_case(ctx, r2, drv, exe, rp)
     for v in r2.violations:
         print("VIOLATION property=C26 replay=(replayed) key=%s %s" % (v["key"], v["what"][:300]))
-    print("replay: %s" % ("still fails" if not ok else "passes"))
-    return 0 if ok else 1
+    print("replay: %s" % ("still fails" if fails else "passes"))
+    return 1 if fails else 0
